@@ -117,6 +117,7 @@ pub mod k {
     pub const CLIENT_IDLE_MS: i128 = 84; // >=0: the client's own max_idle_timeout (0 = none) instead of IDLE_MS
     pub const SERVER_IDLE2_MS: i128 = 85; // >=0: max_idle_timeout of the server's configuration from phase 2 of a 0-RTT scenario on (0 = none)
     pub const FORGET_AT: i128 = 86; // us: the server process restarts (fresh Endpoint, same reset key and server config): every connection state is lost
+    pub const MIGRATE_SILENT: i128 = 87; // 1: the client is not told about its address change (NAT rebinding): no local_address_changed()
     pub const DGRAM_START: i128 = 81; // us: application datagrams are not sent before this instant
     pub const RECONNECT: i128 = 70; // open this many further client connections, one per drained connection (slot reuse)
 }
@@ -963,6 +964,9 @@ impl World {
                 self.trace.push(vec![2, t, epi as i128, sid, size, 1, ridx, 0, origin, kind, hflags]);
                 if let Some(cs) = self.eps[epi].conns.get_mut(&ch.0) {
                     cs.conn.handle_event(ev);
+                    // one probe per handled datagram: several datagrams may be due at one instant and
+                    // the monitors explain every state change as ONE step
+                    self.probe(epi, ch.0, None);
                 } else {
                     self.trace.push(vec![11, t, epi as i128, -3, 1]); // routed to unknown/forgotten handle
                 }
@@ -1758,7 +1762,13 @@ impl World {
                 self.eps[0].addr = new;
                 let nid = self.addr_id(new);
                 self.trace.push(vec![13, self.now as i128, 1, nid]);
+                // MIGRATE_SILENT: a NAT rebinding - the client does not notice, so it neither pings nor
+                // switches to a fresh CID
+                let silent_move = self.p.get(k::MIGRATE_SILENT, 0) == 1;
                 for cs in self.eps[0].conns.values_mut() {
+                    if silent_move {
+                        continue;
+                    }
                     cs.conn.local_address_changed();
                 }
             }
